@@ -63,7 +63,7 @@ PROPS = {
         'theorems': 'Properties/C02', 'obligation_files': ['Obligations/ObShape'],
         'profiles': [SAO, SAOLONG, NODE, SELECT, STAKING],
         'projection': ['outcome-class'], 'monitors': ['live.'], 'families': ALL_FAM,
-        'halt_is_violation': True,
+        'halt_is_violation': True, 'crash_is_witness': True,
     },
     'C03': {
         'theorems': 'Properties/C03', 'obligation_files': ['Obligations/ObAmbient'],
@@ -80,7 +80,7 @@ PROPS = {
         'theorems': 'Properties/C05', 'obligation_files': [],
         'profiles': [SAO, SAOLONG],
         'projection': ['bank.Balance', 'order.Order+keys', 'order.Shard+keys', 'model.Metadata', 'model.Model', 'model.ExpiredData'],
-        'monitors': ['sched.expdata_live', 'sched.meta_scheduled', 'ref.model_alias'], 'families': ['sao', 'block'],
+        'monitors': ['sched.expdata_live', 'sched.meta_scheduled', 'ref.model_alias', 'rollback.'], 'families': ['sao', 'block'],
     },
     'C06': {
         'theorems': 'Properties/C06', 'obligation_files': ['Obligations/ObShape'],
@@ -98,7 +98,7 @@ PROPS = {
         'theorems': 'Properties/C08', 'obligation_files': ['Obligations/ObShape'],
         'profiles': [NODE, SAO, SAOLONG],
         'projection': ['bank.Supply', 'node.Pool', 'node.Pledge#2', 'node.Pledge#3', 'node.Pledge#4'],
-        'monitors': ['agg.pool_is_sum', 'frame.supply', 'solv.node'], 'families': ['block', 'node', 'sao'],
+        'monitors': ['agg.pool_is_sum', 'frame.supply', 'solv.node', 'mint.'], 'families': ['block', 'node', 'sao'],
     },
     'C09': {
         'theorems': 'Properties/C09', 'obligation_files': [],
@@ -143,7 +143,7 @@ PROPS = {
         'theorems': 'Properties/C15', 'obligation_files': ['Obligations/ObShape'],
         'profiles': [SELECT, SAO],
         'projection': ['select', 'node.NodeRound', 'order.Shard#6', 'order.Shard+keys'],
-        'monitors': ['sel.'], 'families': ['select', 'sao', 'block'],
+        'monitors': ['sel.'], 'families': ['select', 'sao', 'block'], 'crash_is_witness': True,
     },
     'C16': {
         'theorems': 'Properties/C16', 'obligation_files': [],
